@@ -93,3 +93,7 @@ func VerifTransportSecureFlag(t Transport) bool {
 
 func VerifConnState(em *EventManager) ConnState { return em.CurrentState.getState() }
 func VerifEventState(e Event) ConnState         { return e.State.state }
+
+// VerifClientConnect runs the unexported Client.connect (transport connect + session
+// negotiation) without the presence, hooks and goroutines that Connect adds.
+func VerifClientConnect(c *Client) error { return c.connect() }
